@@ -16,6 +16,7 @@ import (
 	"net/url"
 	"os"
 	"path/filepath"
+	"runtime/debug"
 	"strings"
 	"testing"
 	"time"
@@ -44,7 +45,9 @@ type TreeCase struct {
 	Outside fsx.Tree `json:"outside,omitempty"` // relative to the arena root R (source is R/src)
 	Rules   *string  `json:"rules,omitempty"`
 	Opts    pk.Opts  `json:"opts"`
-	Mode    string   `json:"mode"` // pack | bundle | opendir (the tree is a bundle directory to be opened)
+	Mode    string   `json:"mode"` // pack | bundle | opendir (the tree is a bundle directory to be opened) | unpackinto
+	// unpackinto: Tree is what the destination already holds; the archives are unpacked into it one after the other
+	Archives [][]tarx.Entry `json:"archives,omitempty"`
 }
 
 type treeFetcher struct {
@@ -83,6 +86,23 @@ func runTreeCase(raw []byte) watch.Outcome {
 	}
 	if err := fsx.Materialise(r, c.Outside, vars); err != nil {
 		return watch.Outcome{OK: true, Note: "harness: outside: " + err.Error()}
+	}
+	if c.Mode == "unpackinto" {
+		dst := filepath.Join(r, "dst")
+		if err := fsx.Materialise(dst, c.Tree, vars); err != nil {
+			return watch.Outcome{OK: true, Note: "harness: tree: " + err.Error()}
+		}
+		var last string
+		for _, a := range c.Archives {
+			data, err := tarx.Build(a, vars)
+			if err != nil {
+				return watch.Outcome{OK: true, Note: "harness: archive: " + err.Error()}
+			}
+			if err := slug.Unpack(bytes.NewReader(data), dst); err != nil {
+				last = err.Error()
+			}
+		}
+		return watch.Outcome{OK: true, Err: last}
 	}
 	if c.Mode == "opendir" {
 		dir := filepath.Join(r, "src")
@@ -132,6 +152,8 @@ func TestWorker(t *testing.T) {
 	case "":
 		t.Skip("not a worker")
 	case "tree":
+		// runaway recursion ends in a crash after 64 MiB of stack instead of after the default gigabyte
+		debug.SetMaxStack(64 << 20)
 		devnull, _ := os.OpenFile(os.DevNull, os.O_WRONLY, 0)
 		_ = devnull
 		watch.Serve(runTreeCase)
@@ -176,7 +198,7 @@ func checkTree(c TreeCase) error {
 		ev.Infra("worker: %v", err)
 		return nil
 	}
-	if hasHazard(c, "cycle") || hasHazard(c, "fifo") || c.Rules != nil || c.Mode == "opendir" {
+	if hasHazard(c, "cycle") || hasHazard(c, "fifo") || c.Rules != nil || c.Mode == "opendir" || c.Mode == "unpackinto" {
 		ev.NonTrivial(c, "hazard:"+c.Mode)
 	}
 	switch {
@@ -286,6 +308,26 @@ func TestPropTree(t *testing.T) {
 		c.Rules = genRules(t)
 		c.Opts.Deref = rapid.Bool().Draw(t, "deref")
 		c.Opts.Ignore = rapid.IntRange(0, 3).Draw(t, "ignore") > 0
+		if rapid.IntRange(0, 9).Draw(t, "unpackinto?") == 0 {
+			// a destination that is used again: special files under names the next archive has, directories the
+			// earlier archive recorded as read-only
+			c.Mode, c.Rules, c.Outside = "unpackinto", nil, nil
+			c.Tree = nil
+			if rapid.Bool().Draw(t, "prefifo") {
+				c.Tree = fsx.Tree{{Path: "a", Kind: "fifo"}, {Path: "conf/pipe", Kind: "fifo"}}
+			}
+			big := strings.Repeat("0123456789abcdef", 8192) // 128 KiB: more than a pipe takes
+			roMode := rapid.SampledFrom([]int64{0555, 0500, 0755}).Draw(t, "romode")
+			first := []tarx.Entry{{Name: "conf/", Type: "dir", Mode: roMode, Sec: 1500000000}, {Name: "conf/a.txt", Type: "file", Mode: 0444, Body: "x", Sec: 1500000000},
+				{Name: "a", Type: "file", Mode: 0644, Body: big, Sec: 1500000000}}
+			second := []tarx.Entry{{Name: "conf/b.txt", Type: "file", Mode: 0644, Body: "y", Sec: 1500000001}, {Name: "conf/a.txt", Type: "file", Mode: 0644, Body: "z", Sec: 1500000001},
+				{Name: "conf/pipe", Type: "file", Mode: 0644, Body: big, Sec: 1500000001}}
+			c.Archives = [][]tarx.Entry{first, second}
+			if rapid.Bool().Draw(t, "swap") {
+				c.Archives = [][]tarx.Entry{second, first}
+			}
+			return c
+		}
 		if rapid.IntRange(0, 9).Draw(t, "opendir?") == 0 {
 			// a directory offered as a bundle whose manifest is not a regular file
 			c.Mode, c.Rules = "opendir", nil
